@@ -2,6 +2,8 @@ package main
 
 import (
 	"math/rand"
+	"os"
+	"strconv"
 	"testing"
 )
 
@@ -9,7 +11,11 @@ import (
 // checks, on random assignments, that the simplified term evaluates to the value
 // computed directly from the operator semantics.
 func TestSimplifierSound(t *testing.T) {
-	rng := rand.New(rand.NewSource(1))
+	seed := int64(1)
+	if v, err := strconv.ParseInt(os.Getenv("GOSYM_TEST_SEED"), 10, 64); err == nil {
+		seed = v
+	}
+	rng := rand.New(rand.NewSource(seed))
 	widths := []uint8{1, 3, 8, 9, 16, 32, 64}
 	for iter := 0; iter < 60000; iter++ {
 		ts := NewTermStore()
@@ -150,6 +156,9 @@ func TestSimplifierSound(t *testing.T) {
 			}
 			if p.t.w > 0 && p.t.tz > 0 && p.v&mask(p.t.tz) != 0 {
 				t.Fatalf("iter %d: term %s claims %d low zero bits but value %#x", iter, p.t, p.t.tz, p.v)
+			}
+			if p.t.w > 0 && p.v&^p.t.pm != 0 {
+				t.Fatalf("iter %d: term %s has possible-bits mask %#x but value %#x", iter, p.t, p.t.pm, p.v)
 			}
 			if p.t.w > 0 && p.t.ew < 64 && p.v>>p.t.ew != 0 {
 				t.Fatalf("iter %d: term %s has effective width %d but value %#x", iter, p.t, p.t.ew, p.v)
